@@ -14,10 +14,11 @@ func C10(c *core.Ctx) {
 		px("Y", "b", true), px("Y", "b", false), px("Y", "a", false),
 		sub("X", 1, "t/1", 1), sub("X", 2, "t/2", 2), unsub("X", 3, "t/1"), sub("X", 4, "t/+", 0),
 		sub("Y", 5, "t/1", 0), unsub("Y", 6, "t/1"),
+		sub("X", 7, "t/1", 3), // out-of-range QoS: refused with 0x80, what is held stays as it is
 		{Kind: "disconnect", Client: "X"}, {Kind: "cut", Client: "X"}, {Kind: "disconnect", Client: "Y"}, {Kind: "cut", Client: "Y"},
 		pub("W", "t/1", 2, 0, "probe1"), pub("W", "t/2", 1, 41, "probe2"),
 	}
-	ops[16] = Action{Kind: "pub2", Client: "W", Topic: "t/1", QoS: 2, ID: 40, Payload: "probe1"}
+	ops[17] = Action{Kind: "pub2", Client: "W", Topic: "t/1", QoS: 2, ID: 40, Payload: "probe1"}
 	depth := 8
 	if c.Thorough() {
 		depth = 11
